@@ -16,30 +16,32 @@ Every `expect` / `unwrap` / index on the modelled path is an explicit outcome:
 `eval` (a `Machine.step` panic). Running user code is `Machine.step` iterated with fuel
 (`outOfFuel` is its own outcome: non-termination of user code is out of scope).
 
-`Cfg` selects the code being described: `Cfg.pinned` = /repo HEAD, `Cfg.patched` = HEAD + the
-`/verif/patches/session-fix-*.diff` patches (the theorems are about `patched`; the defects are witnessed on `pinned`).
+`Cfg` selects the code being described: `Cfg.patched` = /repo HEAD (which contains the commits
+"fix: :skip and :replace with nothing pending answer a message instead of panicking" and
+"fix: :abort also drops the toplevel frame's pending expressions"); `Cfg.pinned` = HEAD with those two
+session-layer fixes reverted (the theorems are about `patched`; the session-layer defects they repaired are
+witnessed on `pinned`). The evaluator is HEAD's in both (the if/match restore fix now lives in
+`Machine.dispatch`).
 
 Import-free apart from M4 and the generated tables (the driver links it).
 -/
 namespace Session
 open Machine
 
-/-- Which of the repairs are applied. -/
+/-- Which of the session-layer fixes are applied. -/
 structure Cfg where
-  /-- session-fix-skip-replace-idle.diff: `:skip` with nothing pending answers a message (HEAD: `expect` panic) -/
+  /-- `:skip` with nothing pending answers a message (before the fix: `expect` panic) -/
   skipGuard : Bool
-  /-- session-fix-skip-replace-idle.diff: `:replace` with nothing pending answers a message and never pops the
-  frame's last (placeholder) value (HEAD: pops one value unconditionally) -/
+  /-- `:replace` with nothing pending answers a message and never pops the frame's last
+  (placeholder) value (before the fix: pops one value unconditionally) -/
   replaceGuard : Bool
-  /-- session-fix-abort-clears-pending.diff: `pop_to_toplevel` clears frame 0's `exprs_to_eval` -/
+  /-- `pop_to_toplevel` clears frame 0's `exprs_to_eval` -/
   abortClears : Bool
-  /-- session-fix-if-match-restore.diff: a failing `if` condition / `match` pops the continuation it had
-  pushed, `match` restores its scrutinee -/
-  ifMatchRestore : Bool
   deriving DecidableEq, Repr
 
-def Cfg.pinned : Cfg := ⟨false, false, false, false⟩
-def Cfg.patched : Cfg := ⟨true, true, true, true⟩
+def Cfg.pinned : Cfg := ⟨false, false, false⟩
+/-- /repo HEAD. -/
+def Cfg.patched : Cfg := ⟨true, true, true⟩
 
 -- ---------------------------------------------------------------- requests
 
@@ -194,43 +196,11 @@ def Result.isSessionPanic (r : Result) : Bool :=
 
 -- ---------------------------------------------------------------- the evaluator inside a session
 
-def isPartial (st : St) : Bool := st == .PW || st == .PD || st == .PN
-
-def isLimitErr (e : Err) : Bool := e == .interrupted || e == .tickLimit || e == .stackLimit
-
-/-- session-fix-if-match-restore on top of `Machine.step`: when the entry that failed was an
-`if` / `match` in a PartiallyEvaluated state and the error came from `eval_expr`, the
-continuation pushed before the fallible step (now the SECOND entry) is popped again; `match`
-also restores the scrutinee it had popped. `pre` is the state before the step. -/
-def repairIfMatch (pre post : Machine.State) (e : Err) : Machine.State :=
-  if isLimitErr e then post else
-  match pre.frames with
-  | f :: _ =>
-    match f.exprs with
-    | (st, x) :: _ =>
-      if !isPartial st then post else
-      match post.frames with
-      | g :: rest =>
-        let dropSecond : List (St × Expr) → List (St × Expr)
-          | a :: _ :: tl => a :: tl
-          | l => l
-        match x with
-        | .ifE .. => { post with frames := { g with exprs := dropSecond g.exprs } :: rest }
-        | .matchE .. =>
-          let vals := match f.values with
-            | sv :: _ => sv :: g.values
-            | [] => g.values
-          { post with frames := { g with exprs := dropSecond g.exprs, values := vals } :: rest }
-        | _ => post
-      | [] => post
-    | [] => post
-  | [] => post
-
-/-- One evaluator step as the session sees it. A `fn` value whose definition was removed by
-`:forget` is a model artefact (the Rust value carries its own definition): unsupported. -/
+/-- One evaluator step as the session sees it: `Machine.step`, except that a `fn` value whose
+definition was removed by `:forget` is a model artefact (the Rust value carries its own
+definition): unsupported. -/
 def mstep (cfg : Cfg) (s : Machine.State) : StepResult :=
   match step s with
-  | .error s' e => .error (if cfg.ifMatchRestore then repairIfMatch s s' e else s') e
   | .panic site =>
     if site == "function value without definition" then .unsupported "forgotten function value"
     else .panic site
